@@ -4,6 +4,7 @@ cd "$(dirname "$0")"
 tier=${1:-quick}
 rc=0
 for p in $(python3 -c "import json;print(' '.join(c['property_id'] for c in json.load(open('MANIFEST.json'))['checks']))"); do
-  ./check $p --tier $tier | tail -2 || rc=1
+  out=$(./check $p --tier $tier) || rc=1
+  echo "$out" | tail -2
 done
 exit $rc
